@@ -303,6 +303,9 @@ func schedules(t *testing.T, cold bool) {
 		}
 		c := genfont.Gen(genfont.Opts{MaxGlyphs: 24, MinGlyphs: 2, Layout: layout, Names: names, NilMaxp: true}).Draw(t, "font")
 		f := c.Font
+		if rapid.Bool().Draw(t, "mixPairRecords") && genfont.MixPairRecords(t, f) {
+			c.Labels = append(c.Labels, "pair-records-mixed")
+		}
 		deep := false
 		if layout == genfont.LayoutAll && rapid.IntRange(0, 2).Draw(t, "deepNesting") == 0 {
 			deepen(t, f)
